@@ -18,7 +18,9 @@ Tie.  Generated cases are driven through the real code and through the Gallina m
           frequency / baud_rate / slot_width / label / tx_osnr / tx_power / delta_pdb / roll_off before and after
           every element, and the channels every Edfa.propagate really saw                    -> run_path
 Independently the property itself is evaluated on the implementation's own observations (oracle): accepted /
-rejected against the pairwise definition, kept set against "fits a band of every amplifier", nothing dropped /
+rejected against the pairwise definition, the returned common range against common_range_spec(_channel) (a point /
+slot lies in a returned band iff it lies in a band of every valid amplifier, exact arithmetic, on band edges +-1 Hz,
+mid-points and every generated channel), kept set against "fits a band of every amplifier", nothing dropped /
 duplicated / reordered / re-attributed after the filter, identical results for a permuted carrier list.
 All frequencies, widths and band edges are integers (Hz) or half-integers below 2^52, so every float sum the
 implementation forms (f +- w/2) is exact and comparisons at a distance of 0 or 1 Hz are decided identically by
@@ -189,6 +191,18 @@ def gen_amp_bandsets(rng):
             if rng.random() < 0.04:
                 b['f_min'], b['f_max'] = b['f_max'], b['f_min']       # inverted band
         amps.append(amp)
+    if rng.random() < 0.25:
+        # one amplifier band spanning several bands of another amplifier, in both orders
+        wide = [{'f_min': 186 * T + jitter(rng), 'f_max': 196500 * G + jitter(rng)}]
+        if rng.random() < 0.3:
+            wide[0]['f_max'] = 200500 * G
+        sub = [{'f_min': lo + jitter(rng), 'f_max': hi + jitter(rng)}
+               for lo, hi in rng.sample([(C_LO, C_HI), (L_LO, L_HI), (S_LO, S_HI)], rng.choice([2, 2, 3]))]
+        if rng.random() < 0.3:
+            sub[0]['spacing'] = 75 * G
+        pair = [wide, sub] if rng.random() < 0.5 else [sub, wide]
+        u = rng.random()
+        amps = pair + amps[:1] if u < 0.4 else (pair if u < 0.8 else amps[:1] + pair)
     if amps and rng.random() < 0.3:                                    # duplicates (possibly in another order)
         a = copy.deepcopy(rng.choice(amps))
         if rng.random() < 0.5:
@@ -242,6 +256,12 @@ def gen_fake_path(rng, wf=True):
                     ok = False
             rng.shuffle(bands)
             path.append({'t': 'M', 'uid': uid, 'bands': bands, 'subs': subs})
+    if rng.random() < 0.25:
+        # a wide single-band amplifier spanning the bands of the multiband amplifiers, first / last / anywhere
+        uid += 1
+        w = {'t': 'E', 'uid': uid, 'bands': [[186 * T + jitter(rng), rng.choice([196500, 200500]) * G + jitter(rng)]]}
+        u = rng.random()
+        path.insert(0 if u < 0.45 else (len(path) if u < 0.9 else rng.randint(0, len(path))), w)
     while rng.random() < 0.4:
         uid += 1
         path.append({'t': 'P', 'uid': uid})
@@ -552,6 +572,11 @@ def drive(case):
             path = [fake_elem(d) for d in case['path']]
             assign_codes(st, case['path'])
             try:
+                from gnpy.topology.request import find_elements_common_range
+                obs['cr'] = find_elements_common_range(path, fake_equipment(case['si']))
+            except Exception as e:
+                obs['cr_exc'] = exc_s(e)
+            try:
                 s1 = filter_si(path, fake_equipment(case['si']), si)
             except Exception as e:
                 return ('F:' if kind == 'fpath' else '') + exc_s(e), obs
@@ -628,6 +653,63 @@ def exact_ok(chs, bands=()):
     return True
 
 
+def cr_spec_fails(result, amps, dflt, slots=()):
+    """common_range_spec / common_range_spec_channel evaluated on the implementation's own output (exact arithmetic):
+    result = the list of band dicts returned, amps = the amp_bands argument, dflt = (f_min, f_max) default band,
+    slots = extra (lo, hi) slots to probe.  A point lies strictly inside a returned band iff it lies strictly inside
+    a band of every valid amplifier; a slot fits a returned band iff it fits a band of every valid amplifier."""
+    fr = Fraction
+    valid = [a for a in amps if all(b.get('f_min') is not None and b.get('f_max') is not None for b in a)]
+    try:
+        res = [(fr(b['f_min']), fr(b['f_max'])) for b in result]
+    except Exception as e:
+        return [f'malformed result {result}: {e}']
+    if not valid:
+        want = [] if dflt[0] is None or dflt[1] is None else [(fr(dflt[0]), fr(dflt[1]))]
+        return [] if res == want else [f'no valid amplifier: returned {res}, default band is {want}']
+    va = [[(fr(b['f_min']), fr(b['f_max'])) for b in a] for a in valid]
+    out = []
+    if any(res[k][0] > res[k + 1][0] for k in range(len(res) - 1)):
+        out.append(f'returned bands not sorted by f_min: {[(float(a), float(b)) for a, b in res]}')
+    edges = sorted({e for a in va for b in a for e in b} | {e for b in res for e in b})
+    pts = set()
+    for e in edges:
+        pts |= {e - 1, e, e + 1}
+    for a, b in zip(edges[:-1], edges[1:]):
+        pts.add((a + b) / 2)
+    for x in sorted(pts):
+        in_res = any(lo < x < hi for lo, hi in res)
+        in_all = all(any(lo < x < hi for lo, hi in a) for a in va)
+        if in_res != in_all:
+            out.append(f'{float(x)} Hz is {"" if in_res else "not "}strictly inside a returned band but '
+                       f'{"" if in_all else "not "}inside a band of every amplifier')
+            break
+    probes = list(slots)
+    for e in edges:
+        for w in (25 * G, 50 * G + 1):
+            for d in (-1, 0, 1):
+                probes += [(e + d, e + d + w), (e + d - w, e + d)]
+    for lo, hi in probes:
+        lo, hi = fr(lo), fr(hi)
+        if not lo < hi:
+            continue
+        in_res = any(a <= lo and hi <= b for a, b in res)
+        in_all = all(any(a <= lo and hi <= b for a, b in amp) for amp in va)
+        if in_res != in_all:
+            out.append(f'slot [{float(lo)}, {float(hi)}] Hz {"fits" if in_res else "does not fit"} a returned band but '
+                       f'{"fits" if in_all else "does not fit"} a band of every amplifier')
+            break
+    return out
+
+
+def slots_of(chs):
+    return [(lo2(c) / 2, hi2(c) / 2) for c in chs if c['w'] > 0]
+
+
+def declared_amp_bands(path):
+    return [[{'f_min': b[0], 'f_max': b[1]} for b in d['bands']] for d in path if d['t'] != 'P']
+
+
 def elem_keeps(d, c):
     """does amplifier element d (by its real per-band amplifiers) carry channel c"""
     if d['t'] == 'P':
@@ -673,7 +755,13 @@ def oracle(case, line, obs):
                 want = ids_s([c['id'] for c in sorted(allc, key=lambda c: Fraction(c['f']))])
                 if line != want:
                     fails.append(('mux_not_union', f'mux gave {line[:80]}, sorted union is {want[:80]}'))
-    elif kind in ('filter', 'fpath') and case['wf'] and not line.startswith('E0'):
+    elif kind == 'fcr' and 'r' in obs:
+        for d in cr_spec_fails(obs['r'], case['amps'], (case['dmin'], case['dmax'])):
+            fails.append(('common_range_spec', d))
+    if kind in ('filter', 'fpath') and 'cr' in obs:
+        for d in cr_spec_fails(obs['cr'], declared_amp_bands(case['path']), case['si'][:2], slots_of(case['chs'])):
+            fails.append(('common_range_spec', 'path common range: ' + d))
+    if kind in ('filter', 'fpath') and case['wf'] and not line.startswith('E0'):
         chs = sorted(case['chs'], key=lambda c: Fraction(c['f']))
         amps = [d for d in case['path'] if d['t'] != 'P']
         if amps:
@@ -841,6 +929,15 @@ def gen_net(rng):
                     sub = [rng.choice(sub)]                # only one of the two bands equipped
                 amps.append({'t': 'M', 'v': mv, 'sub': sub})
         segs.append({'amps': amps, 'len': [rng.choice([40, 60, 80, 100]) for _ in range(n)]})
+    if rng.random() < 0.3:
+        # a wide single-band OMS (one band spanning C and L) before / after a multi-band OMS
+        lib['vW'] = [186 * T + rng.choice([0, 0, 1, -1]), 196500 * G + rng.choice([0, 0, 1, -1])]
+        n = rng.choice([2, 2, 3])
+        wide = {'amps': [{'t': 'E', 'v': 'vW'} for _ in range(n)], 'len': [rng.choice([40, 60, 80]) for _ in range(n)]}
+        mv = rng.choice(sorted(multis))
+        multi = {'amps': [{'t': 'M', 'v': mv, 'sub': list(multis[mv])} for _ in range(2)], 'len': [60, 80]}
+        pair = [wide, multi] if rng.random() < 0.5 else [multi, wide]
+        segs = pair + segs[:rng.choice([0, 0, 1])]
     return {'lib': lib, 'multis': multis, 'segs': segs}
 
 
@@ -990,6 +1087,10 @@ def run_real(eq, req, path, chs, grid=None):
         obs['filter'] = (a, ids_of(out, idmap))
         return out
     try:
+        obs['cr'] = rq.find_elements_common_range(p, eq)
+    except Exception as e:
+        obs['cr_exc'] = exc_s(e)
+    try:
         for cl, fn in orig_call.items():
             cl.__call__ = wrap_call(cl, fn)
         E.Edfa.propagate = wprop
@@ -1053,6 +1154,9 @@ def oracle_net(case, obs, obs2):
     else:
         want = [c['id'] for c in chs if fits(c, case['si'][:2])]
     launched = [c['id'] for c in chs]
+    if 'cr' in obs:
+        for d in cr_spec_fails(obs['cr'], declared_amp_bands(case['path']), case['si'][:2], slots_of(case['chs'])):
+            fails.append(('common_range_spec', 'path common range: ' + d))
     if obs['filter'] is None and obs['exc'] is None:
         fails.append(('filter_not_applied', 'request.propagate did not call filter_si before the first element'))
         if obs.get('out') != want:
